@@ -214,6 +214,8 @@ type mwRun struct {
 	snapAt map[string]int
 	farVacuumed bool
 	opsAdded int
+	ro       *roState
+	closers  []func()
 }
 
 const mwCols = "k primary key, a, b, c"
@@ -238,6 +240,9 @@ func newMWRun(c MWCase, o *Obs) (*mwRun, error) {
 }
 
 func (r *mwRun) close() {
+	for _, f := range r.closers {
+		f()
+	}
 	for _, w := range r.ws {
 		w.conn.Close()
 	}
@@ -670,6 +675,8 @@ func (r *mwRun) step1(i int, s MWStep, where string) error {
 		return r.frontierStep(where)
 	case "changes", "changes-fault":
 		return r.changesStep(s, where)
+	case "ro-open", "ro-select", "ro-refresh", "ro-version", "ro-vacuum", "ro-changes", "ro-write":
+		return r.roStep(s, where)
 	}
 	return fmt.Errorf("bad step %q", s.Op)
 }
